@@ -43,6 +43,52 @@ CHECKS.update({
              note='Known findings D6 (smpte_offset hours overlap) and D7 (sequencer_specific unchecked) are listed in known_findings.json. Trusted: abstract interpreter, SMF meta table, documentation table. Text payloads are symbolic byte runs (codec behaviour is C17 / not decided).',
              ref='DESIGN.md §3 C09'),
 })
+CHECKS.update({
+ 'C10': dict(tech='lockset / guarded-by, check-then-act atomicity, lock-order and dummy-lock reachability rules over the resolved port class family; copy-on-send by abstract interpretation',
+             text='Decides the lock discipline that makes exactly-once hold in every interleaving, not the interleavings: every access to the pending deque is inside `with self._lock` or a device hook called only under the lock; each popleft shares a region with its emptiness test; a class with DummyLock/_locking=False must not reach lock-relying base methods that touch the deque (IOPort forwards receive); lock order over container->child edges is acyclic; no sleep under a lock; the device receives a copy.',
+             note='Assumes CPython atomicity of single deque operations and RLock semantics. NOT decided: delivery order / exactly-once as observed histories under real schedules (needs schedule exploration - another technique); backends with their own queue+lock (rtmidi, amidi) are outside the analysed family (listed in evidence; thorough tier applies the rules to the others).',
+             ref='DESIGN.md §3 C10'),
+ 'C11': dict(tech='typestate obligations by abstract interpretation of single port API calls from constructed abstract pre-states with scripted device doubles',
+             text='close() from open: reset (32 messages) then exactly one _close, closed set, also when reset fails; close() from closed: nothing; send on closed: ValueError, device untouched; receive/poll/iteration drain pending messages before looking at closed; iteration ends quietly whether closed before or inside _receive; blocking receive returns the message delivered after k polls with k sleeps, poll never sleeps; MultiPort.receive(block=True) with a pending child message terminates (an endless generator under extend is reported as non-termination); IOPort/EchoPort/MultiPort built by their real constructors.',
+             note='Trusted: abstract interpreter (with-blocks execute their body, generators evaluated eagerly), device doubles. Not decided: wall-clock promptness; threads (C10).',
+             ref='DESIGN.md §3 C11'),
+ 'C12': dict(tech='abstract interpretation of merge_tracks (generators, stable sort on folded keys) against a reference merge derived from the property',
+             text='merge_tracks is interpreted on ten track lists exercising every ordering decision (ties across and within tracks, tie order vs type order, end_of_track missing/repeated/in the middle/longest, empty and no tracks), with and without skip_checks; result compared event for event with a reference merge (absolute tick, (time, track, index) order, one trailing end_of_track, duration of the longest input); inputs must be untouched and not aliased.',
+             note='Delta times are small concrete integers standing for the general prefix-sum argument; attribute values are symbolic. Trusted: abstract interpreter, reference merge.',
+             ref='DESIGN.md §3 C12'),
+ 'C13': dict(tech='abstract interpretation in a polynomial domain over positive real symbols (ticks, tempos, ticks_per_beat, clock readings)',
+             text='MidiFile.__iter__/length with merge and tick2second inlined must yield t*M/(1e6*B) with M the tempo in force before each message (500000 until the first set_tempo, set_tempo applies to later deltas only), zero deltas 0, length the sum, type 2 refused; play() with a symbolic clock must sleep exactly (sum of times) - (now - start) when positive, read start once, yield after the sleep decision, filter meta messages; unit conversions are exact monomials with round-before-int, mutually inverse.',
+             note='NOT decided: the numeric clause - floating point error of cumulative sums vs the exact integral, inverse up to rounding at extreme tempos (runtime values no static argument in reach bounds).',
+             ref='DESIGN.md §3 C13'),
+ 'C14': dict(tech='abstract interpretation in a symbolic string domain (literal text + decimal/float/hex segments); malformed-text catalogue through the interpreted parser; structural repr-conversion rule',
+             text='str(m) is computed symbolically for all 18 types (negative pitch range, sysex of 0/1/3 symbolic bytes, int and float symbolic times) and fed to the interpreted from_str: every attribute must come back symbol for symbol; dict/from_dict likewise; 30 malformed texts must raise ValueError and nothing else; parse_string_stream must report them with line numbers and continue; every __repr__ uses repr conversion for values and constructor keyword names.',
+             note='eval(repr(x)) itself is not executed: decided structurally (conversion flags, keyword tables). Float <-> text exactness is Python\'s repr guarantee (trusted). A text carrying skip_checks=/self= words is outside "valid message".',
+             ref='DESIGN.md §3 C14'),
+ 'C15': dict(tech='abstract interpretation of freeze/thaw/copy over all six message classes and None; MRO resolution of mutators; hashability scan',
+             text='freeze and thaw map each class to its counterpart (mutually inverse, no dead isinstance branch), results are equal but independent objects, freeze of frozen is identity, None maps to None, non-message rejected; copy() gives a new object with its own dict, overrides go through the checks, frozen copies stay frozen; frozen __setattr__/__delattr__ resolve to methods raising on every path; __eq__/__hash__ are functions of vars(self) only and stored values are hashable.',
+             note='Known finding D15 (sequencer_specific default [[]] unhashable). UnknownMetaMessage.copy with an invalid time is unchecked (D7 family, noted).',
+             ref='DESIGN.md §3 C15'),
+ 'C16': dict(tech='no-derived-state scan of MidiFile + abstract observe-edit-observe scenarios compared with a freshly built file',
+             text='No MidiFile method outside __init__/_load stores an instance attribute or uses a caching decorator; observers leave file, tracks and messages untouched; for each observer (iterate, length, merged_track, save) and each documented edit route (tracks.append, add_track, track.append, delete, message time, ticks_per_beat, type) the observation after the edit equals that of a fresh file with the same contents.',
+             note='Trusted: abstract interpreter. Edits are the documented routes (list operations / attribute assignment).',
+             ref='DESIGN.md §3 C16'),
+ 'C17': dict(tech='path enumeration of the context manager (finally covers the yield), single-writer scan of the global, call-graph scoping of codec-reaching calls, late-binding and helper-wiring rules',
+             text='On every path through the yield of meta_charset - normal and exceptional - the saved charset is restored; _charset has one writer; every call in MidiFile that can reach encode_string/decode_string is inside `with meta_charset(self.charset)`; the helpers read the global at call time and all text meta specs go through them.',
+             note='Trusted: contextmanager semantics (body exception raised at the yield). Not decided: encodability of a given text in a given charset; concurrent loads with different charsets (global by design).',
+             ref='DESIGN.md §3 C17'),
+ 'C18': dict(tech='abstract interpretation of SocketPort/PortServer on scripted socket/select doubles for every cut offset and several segmentations',
+             text='For a stream of one complete message plus the first k bytes of another (k=0..3), with and without pauses, iteration yields exactly the complete messages, ends without exception, the port reports closed and socket + both file objects are closed; select is polled with timeout 0 and every read follows a positive poll; close releases what __init__ acquired; PortServer.poll accepts a waiting client, delivers its message and terminates; format_address/parse_address are inverse on sample pairs and invalid addresses raise ValueError.',
+             note='Not decided: OS-level behaviour (connection reset -> OSError is re-raised and iteration would raise); segmentation independence proper is C05.',
+             ref='DESIGN.md §3 C18'),
+ 'C19': dict(tech='abstract interpretation of write_syx_file/read_syx_file on a file double, hex text in the symbolic string domain',
+             text='Lists mixing sysex messages of 0/1/3 symbolic bytes with other messages are written (binary and text) and read back: exactly the sysex messages in order with equal data; no sysex -> empty file -> []; other whitespace layouts parse alike; non two-digit hex raises ValueError; first-byte format detection after the empty-file guard.',
+             note='Trusted: bytearray.fromhex semantics as modelled; C04/C06 for the parser. File system behaviour not modelled.',
+             ref='DESIGN.md §3 C19'),
+ 'C20': dict(tech='abstract interpretation of Backend over the full finite configuration grid with recording module/environment doubles against a reference decision table',
+             text='1152 configurations x 3 open calls plus name/api split, listing and set_backend cases: which module is imported and when (lazily, once), constructor name by precedence explicit > environment > default, api reaching every constructor and query with explicit api winning, native IOPort vs wrapper, listings from get_devices, top-level rebinding.',
+             note='Backend name containing "/" together with an explicit api= is unspecified and not in the grid. Trusted: decision table transcribed from the property and docs/backends.',
+             ref='DESIGN.md §3 C20'),
+})
 NA = {}
 def main():
     props = [json.loads(l) for l in open(os.path.join(HERE, 'properties.jsonl'))]
